@@ -139,6 +139,41 @@ def _merge(b, parts):
             b.violation(v["case"], v["detail"], v["input"])
 
 
+def _c05_growing_architecture(seed):
+    """Rules built from one LayeredArchitecture object before and after further layers (by names / by regex) are added to it."""
+    from pytestarch import LayeredArchitecture, LayerRule
+    rng = random.Random(seed)
+    mods = LTREE
+    cand = [(a, c) for a in mods for c in mods if a != c and "." in a and "." in c and not a.startswith(c + ".") and not c.startswith(a + ".")]
+    imports = rng.sample(cand, rng.randint(1, 6))
+    arch = build_arch(mods, imports)
+    la = LayeredArchitecture().layer("A").containing_modules(["r.a"]).layer("B").containing_modules(["r.b"])
+    defs = [("A", ("names", ["r.a"])), ("B", ("names", ["r.b"]))]
+    out = []
+    shapes = [(v, a, e) for v in ("should", "should_only", "should_not") for a in (True, False) for e in (False, True)]
+    steps = [("C", ("regex", r"(r\.c)$")), ("D", ("names", ["r.d"])), ("E", ("regex", r"r\.e$"))]
+    rng.shuffle(steps)
+    for step in [None] + steps:
+        if step is not None:
+            name, (kind, val) = step
+            la = la.layer(name)
+            la = la.containing_modules(list(val)) if kind == "names" else la.have_modules_with_names_matching(val)
+            defs.append(step)
+        lay = layer_sets(mods, defs)
+        names = [n for n, _ in defs]
+        for _ in range(4):
+            subject = rng.choice(names)
+            objects = rng.sample([n for n in names if n != subject], rng.randint(1, min(2, len(names) - 1)))
+            verb, acc, exc = rng.choice(shapes)
+            kind_, msg = outcome(layer_rule(la, subject, verb, acc, exc, objects), arch)
+            want = doc_layer_verdict(mods, imports, lay, subject, verb, acc, exc, objects)
+            if kind_ == "error" or (kind_ == "pass") != want:
+                out.append(dict(case="growing-architecture", detail=f"layers {names} (added one by one to ONE architecture object, rules built in between): {subject} {verb} access={acc} except={exc} {objects}: "
+                                f"real {kind_} ({msg}); documented semantics say {'pass' if want else 'fail'}", input=dict(kind="c05-grow", seed=seed)))
+                return out
+    return out
+
+
 def bounded_layer_verdicts(tier, seed):
     b = Bounded("C05.layer-verdict-vs-documented-semantics", "12-module tree with prefix-named siblings (r.a / r.ab) and 3 levels; import relations: all with <=1 import + 60/600 random (2-8 imports); per graph 3 (quick) / 6 "
                 "random partitions of unrelated modules into 2-4 layers (name lists, regex, mixed; some modules in no layer; layers the rule does not mention) x 12 access shapes x 1-2 object layers + the two "
@@ -151,11 +186,18 @@ def bounded_layer_verdicts(tier, seed):
     size = max(1, len(rels) // 16)
     jobs = [(rels[i:i + size], rng.randrange(1 << 30), 3 if tier == "quick" else 6) for i in range(0, len(rels), size)]
     _merge(b, pmap(_c05_chunk, jobs))
+    for res in pmap(_c05_growing_architecture, [seed * 1013 + i for i in range(40 if tier == "quick" else 600)]):
+        b.case()
+        for v in res:
+            b.violation(v["case"], v["detail"], v["input"])
     b.samples.append(dict(layers=[["L0", ["names", ["r.a"]]], ["L1", ["regex", r"(r\.b)$"]]], rule="L0 should_only access L1"))
     return b.result()
 
 
 def rerun_c05(inp):
+    if inp.get("kind") == "c05-grow":
+        res = _c05_growing_architecture(inp["seed"])
+        return (not res), ("; ".join(v["detail"] for v in res) or "verdicts follow the documented semantics at every stage")
     mods = LTREE
     imports = [tuple(p) for p in inp["imports"]]
     defs = [(n, (d[0], d[1])) for n, d in inp["defs"]]
@@ -219,8 +261,18 @@ def _c17_case(seed):
     rest = {k: v for k, v in got.items() if k not in ("labels", "pos")}
     if rest != extra or ("pos" in got) != (spacing is not None) or "spacing" in got or "aliases" in got:
         out.append(dict(case="kwargs", detail=f"drawing options not passed through unchanged: backend received {sorted(got)} for options {sorted(kw)} + aliases", input=inp))
-    # alias for a module that does not exist -> error naming it
-    ghost = rng.choice(["p.zz", "r.a.zz", "r.aa", "zz"])
+    # a second call on the same architecture object: same aliased modules, different alias strings
+    if aliases:
+        aliases2 = {k: "Z" + v[::-1] for k, v in aliases.items()}
+        try:
+            (args2, got2), _ = draw_call(arch, aliases=dict(aliases2), **kw)
+            want2 = {m: expected_label(m, aliases2) for m in nodes}
+            if got2.get("labels") != want2:
+                out.append(dict(case="labels-second-call", detail=f"second visualize() on the same architecture with aliases {aliases2}: labels {dict(list((got2.get('labels') or {}).items())[:4])}, expected {dict(list(want2.items())[:4])}", input=inp))
+        except Exception as e:
+            out.append(dict(case="labels-second-call", detail=f"second visualize() raised {type(e).__name__}: {e}", input=inp))
+    # alias for a module that does not exist -> error naming it (a module flattened away by level_limit does not exist either)
+    ghost = rng.choice(["p.zz", "r.a.zz", "r.aa", "zz", "r.a.x.p", "r.a.x", "p.a.b.c", "r.b.x.p"])
     if ghost not in nodes:
         try:
             draw_call(arch, aliases={**aliases, ghost: "G"})
